@@ -47,6 +47,8 @@ def run_model(ctx, name, text, harness_cfg, binp, timeout, simulate=None, depth=
     if p.returncode != 0 or not os.path.exists(of):
         raise Inconclusive("replayer failed: %s" % p.stderr[-2000:])
     res = json.load(open(of))
+    if res.get("harness_errors"):
+        raise Inconclusive("replayer set-up error: %s" % res["harness_errors"][:2])
     return r, trees, res
 
 def run(ctx):
